@@ -20,8 +20,11 @@ CONSTANTS Deep,     \* TRUE: more histories
           Twice,    \* TRUE: two update-engine calls in a row per history (fewer words, no typing before)
           GoneKeepsLoaded   \* TRUE: transcript of the pinned tree (a deleted file leaves the loaded entries in place)
 
-AllWords == {"as", "onno", "academy"}
-Words == IF Twice THEN {"as", "academy"} ELSE AllWords
+\* (the quoted word makes the smart-quote option observable; it never gets an auto-correct entry of its own)
+Quoted == "\"as'"
+AllWords == {"as", "onno", "academy", Quoted}
+Words == IF Twice THEN {"as", "academy", Quoted} ELSE AllWords
+EditWords == Words \ {Quoted}
 
 PC(sug, eng, smart, ansi) ==
     [layout |-> "phonetic", psug |-> sug, fsug |-> FALSE, english |-> eng, ansi |-> ansi, smart |-> smart,
@@ -29,9 +32,12 @@ PC(sug, eng, smart, ansi) ==
 FC(lay, sug, eng, vowel, ko) ==
     [layout |-> lay, psug |-> FALSE, fsug |-> sug, english |-> eng, ansi |-> FALSE, smart |-> TRUE,
      vowel |-> vowel, chandra |-> TRUE, kar |-> TRUE, reph |-> TRUE, numpad |-> TRUE, karorder |-> ko, db |-> TRUE]
+\* layouts: "probhat" the bundled file; "probhat2" a file with the SAME NAME in another directory whose plain letter keys differ
+\* (the words typed here go through plain keys only, so "synth" - AltGr additions - types like "probhat")
 AllConfigs == {PC(TRUE, FALSE, TRUE, FALSE), PC(TRUE, TRUE, FALSE, FALSE), PC(FALSE, FALSE, TRUE, FALSE), PC(TRUE, FALSE, TRUE, TRUE),
-               FC("probhat", TRUE, TRUE, TRUE, FALSE), FC("synth", TRUE, TRUE, TRUE, FALSE), FC("probhat", FALSE, FALSE, FALSE, TRUE)}
-FewConfigs == {PC(TRUE, FALSE, TRUE, FALSE), PC(TRUE, TRUE, FALSE, FALSE), FC("probhat", TRUE, TRUE, TRUE, FALSE), FC("synth", FALSE, FALSE, FALSE, TRUE)}
+               FC("probhat", TRUE, TRUE, TRUE, FALSE), FC("synth", TRUE, TRUE, TRUE, FALSE), FC("probhat", FALSE, FALSE, FALSE, TRUE),
+               FC("probhat2", FALSE, TRUE, TRUE, FALSE)}
+FewConfigs == {PC(TRUE, FALSE, TRUE, FALSE), PC(TRUE, TRUE, FALSE, FALSE), FC("probhat", TRUE, TRUE, TRUE, FALSE), FC("probhat2", FALSE, FALSE, FALSE, TRUE)}
 TwiceConfigs == {PC(TRUE, FALSE, TRUE, FALSE), PC(FALSE, FALSE, TRUE, FALSE), FC("probhat", TRUE, TRUE, TRUE, FALSE)}
 Configs == IF Twice THEN TwiceConfigs ELSE IF Deep THEN AllConfigs ELSE FewConfigs
 MaxEdits == IF Deep THEN 2 ELSE 1
@@ -113,7 +119,7 @@ Update(c) ==
     /\ hist' = Append(hist, [op |-> "update", cfg |-> c, file |-> file, w |-> ""])
     /\ UNCHANGED <<file, stamp, fstate>>
 
-Next == (\E w \in Words : Type(w) \/ Edit(w)) \/ (\E c \in Configs : Update(c)) \/ (\E k \in {"corrupt", "gone"} : Break(k))
+Next == (\E w \in Words : Type(w)) \/ (\E w \in EditWords : Edit(w)) \/ (\E c \in Configs : Update(c)) \/ (\E k \in {"corrupt", "gone"} : Break(k))
 Spec == Init /\ [][Next]_vars
 
 \* the answer the context gives for w now vs. the answer of a fresh context over the current file
